@@ -6,6 +6,7 @@ import Qentem.Proofs.SeqString
 import Qentem.Proofs.SeqStream
 import Qentem.Proofs.SeqAlias
 import Qentem.Props.C14Tree
+import Qentem.Props.C14Trim
 /-! C14 — Array, String, StringStream and StringView behave as plain sequences; the byte-copy and
 zero-fill primitives give identical results for every length in scalar, SSE2 and AVX2 builds. -/
 namespace Qentem.Props.C14
